@@ -248,6 +248,65 @@ fn test_text(c: &TextCase, cx: &mut Cx) -> CaseResult {
     run_target(idx, &data, cx)
 }
 
+// --- strptime/strftime: every specifier x flag x width x digit-heavy inputs -----------------------
+
+#[derive(Serialize, Deserialize, Debug, Clone)]
+struct SpecCase {
+    spec: char,
+    colon: bool,
+    dot: bool,
+    flag: Option<char>,
+    width: Option<u16>,
+    input: Vec<u8>,
+    prefix_literal: bool,
+}
+
+fn strat_spec_case() -> BoxedStrategy<SpecCase> {
+    let spec = proptest::sample::select("%AaBbCcDdeFfGgHhIjklMmNnPpQRrSsTtUuVvWwXxYyZz+".chars().collect::<Vec<_>>());
+    let flag = prop_oneof![3 => Just(None), 1 => Just(Some('_')), 1 => Just(Some('-')), 1 => Just(Some('0')), 1 => Just(Some('^')), 1 => Just(Some('#'))];
+    let width = prop_oneof![3 => Just(None), 3 => (0u16..=30).prop_map(Some), 1 => prop_oneof![Just(255u16), Just(256), Just(999), Just(65535)].prop_map(Some)];
+    let input = prop_oneof![
+        3 => (1usize..30, proptest::sample::select(b"0123456789".to_vec())).prop_map(|(n, d)| vec![d; n]),
+        2 => proptest::collection::vec(proptest::sample::select(b"0123456789".to_vec()), 0..30),
+        1 => (any::<bool>(), proptest::collection::vec(proptest::sample::select(b"0123456789:".to_vec()), 0..20)).prop_map(|(neg, mut v)| { v.insert(0, if neg { b'-' } else { b'+' }); v }),
+        1 => proptest::sample::select(vec![&b"Monday"[..], b"tue", b"December", b"dec", b"AM", b"pm", b"America/New_York", b"UTC", b"+05:30:15", b"-0000", b"Z", b""]).prop_map(|s| s.to_vec()),
+        1 => proptest::collection::vec(any::<u8>(), 0..12),
+    ];
+    (spec, any::<bool>(), any::<bool>(), flag, width, input, any::<bool>())
+        .prop_map(|(spec, colon, dot, flag, width, input, prefix_literal)| SpecCase { spec, colon: colon && "zQ".contains(spec), dot: dot && spec == 'f', flag, width, input, prefix_literal })
+        .boxed()
+}
+
+fn test_spec_case(c: &SpecCase, cx: &mut Cx) -> CaseResult {
+    let mut fmt = String::new();
+    if c.prefix_literal {
+        fmt.push_str("x ");
+    }
+    fmt.push('%');
+    if let Some(f) = c.flag {
+        fmt.push(f);
+    }
+    if let Some(w) = c.width {
+        fmt.push_str(&w.to_string());
+    }
+    if c.colon {
+        fmt.push(':');
+    }
+    if c.dot {
+        fmt.push('.');
+    }
+    fmt.push(c.spec);
+    let mut data = fmt.clone().into_bytes();
+    data.push(0xFF);
+    if c.prefix_literal {
+        data.extend_from_slice(b"x ");
+    }
+    data.extend_from_slice(&c.input);
+    cx.nt_if(c.width.is_some() || c.flag.is_some());
+    cx.class_if(c.width.map_or(false, |w| w >= 10), "width>=10");
+    run_target(3, &data, cx)
+}
+
 // --- TZif: structure-aware mutation --------------------------------------------------------------
 
 #[derive(Serialize, Deserialize, Debug, Clone)]
@@ -500,6 +559,7 @@ pub fn property() -> Property {
         assumptions: &["the coarse time-scaling test can only flag three concordant super-linear steps above 0.5s; it is not a complexity proof", "thorough tier adds libFuzzer campaigns on the same targets (tools/fuzz_campaign.sh)"],
         checks: vec![
             Box::new(Prop { name: "c17.text", quick: 1_500_000, thorough: 60_000_000, strategy: strat_text, test: test_text }),
+            Box::new(Prop { name: "c17.strtime_spec", quick: 600_000, thorough: 20_000_000, strategy: strat_spec_case, test: test_spec_case }),
             Box::new(Prop { name: "c17.tzif", quick: 200_000, thorough: 8_000_000, strategy: strat_tzif, test: test_tzif }),
             Box::new(Sweep { name: "c17.scaling", run: run_scaling, replay: replay_scaling }),
         ],
